@@ -33,7 +33,7 @@ func checkThesauri(seg segment.Segment, exp *ref.Content, a *run.Acc, where stri
 	}
 	n := uint(exp.Count)
 	names := []string{"s1", "s2", "zz", "f", "_id"}
-	terms := []string{"a", "b", "zz", ""}
+	terms := []string{"a", "b", "c", "zz", ""}
 	for _, name := range names {
 		th, err := ts.Thesaurus(name)
 		if err != nil {
@@ -62,28 +62,42 @@ func checkThesauri(seg segment.Segment, exp *ref.Content, a *run.Acc, where stri
 			}
 		}
 	}
-	return thesaurusReuse(ts, exp, a, where)
+	// the full reuse matrix belongs to C12 (segments of the build alphabet); on merged and
+	// other segments (C13, C20, ...) a reduced one is run: objects reused after all / no calls
+	return thesaurusReuse(ts, exp, a, where, where != "in-memory" && where != "re-opened")
 }
 
 // thesaurusReuse: every ordered pair of (thesaurus, term) lookups, the second one
 // passing the first one's SynonymsList and SynonymsIterator back in (after the first
 // iterator was read partially or completely), with and without an exclusion bitmap.
-func thesaurusReuse(ts segment.ThesaurusSegment, exp *ref.Content, a *run.Acc, where string) string {
+func thesaurusReuse(ts segment.ThesaurusSegment, exp *ref.Content, a *run.Acc, where string, reduced bool) string {
 	type look struct{ name, term string }
 	var looks []look
 	for _, name := range []string{"s1", "s2", "zz"} {
-		for _, term := range []string{"a", "b", "zz"} {
+		for _, term := range []string{"a", "b", "c", "zz"} {
 			looks = append(looks, look{name, term})
 		}
 	}
 	var oneDoc *roaring.Bitmap
+	var firstDoc *roaring.Bitmap
 	if exp.Count > 0 {
 		oneDoc = roaring.BitmapOf(uint32(exp.Count - 1))
+		firstDoc = roaring.BitmapOf(0)
 	}
 	for _, l1 := range looks {
 		for _, l2 := range looks {
-			for _, except := range []*roaring.Bitmap{nil, oneDoc} {
-				for _, consume := range []int{0, 1, -1, 10, 11, 9} {
+			for ei, except := range []*roaring.Bitmap{nil, oneDoc, nil, firstDoc} {
+				// except1: exclusion of the FIRST lookup (whose objects are then reused): none for
+				// the first two rounds, then the last / the first document
+				except1 := []*roaring.Bitmap{nil, nil, oneDoc, firstDoc}[ei]
+				if ei >= 2 && exp.Count == 0 {
+					continue
+				}
+				consumes := []int{0, 1, -1, 10, 11, 9}
+				if reduced {
+					consumes = []int{-1, 10}
+				}
+				for _, consume := range consumes {
 					// consume >= 9: only the ITERATOR is handed on (after consume-10 calls); the first
 					// list stays in use and must still describe its own pairs afterwards
 					donateOnly := consume >= 9
@@ -94,7 +108,7 @@ func thesaurusReuse(ts segment.ThesaurusSegment, exp *ref.Content, a *run.Acc, w
 					if err != nil {
 						return fmt.Sprintf("%s: Thesaurus(%q): %v", where, l1.name, err)
 					}
-					sl, err := th1.SynonymsList([]byte(l1.term), nil, nil)
+					sl, err := th1.SynonymsList([]byte(l1.term), except1, nil)
 					if err != nil {
 						return fmt.Sprintf("%s: SynonymsList(%q,%q): %v", where, l1.name, l1.term, err)
 					}
@@ -141,7 +155,7 @@ func thesaurusReuse(ts segment.ThesaurusSegment, exp *ref.Content, a *run.Acc, w
 					a.Eval(1)
 					want := filterPairs(exp.Thes[l2.name][l2.term], except)
 					if fmt.Sprint(got) != fmt.Sprint(want) && !(len(got) == 0 && len(want) == 0) {
-						return fmt.Sprintf("%s: lookup (%q,%q,except %v) reusing the list and iterator of (%q,%q) (after %d calls; iterator only: %v): got %v want %v", where, l2.name, l2.term, except, l1.name, l1.term, consume, donateOnly, got, want)
+						return fmt.Sprintf("%s: lookup (%q,%q,except %v) reusing the list and iterator of (%q,%q,except %v) (after %d calls; iterator only: %v): got %v want %v", where, l2.name, l2.term, except, l1.name, l1.term, except1, consume, donateOnly, got, want)
 					}
 					if donateOnly {
 						var again []ref.SynPair
@@ -162,7 +176,7 @@ func thesaurusReuse(ts segment.ThesaurusSegment, exp *ref.Content, a *run.Acc, w
 							}
 							return again[x].Doc < again[y].Doc
 						})
-						want1 := exp.Thes[l1.name][l1.term]
+						want1 := filterPairs(exp.Thes[l1.name][l1.term], except1)
 						if fmt.Sprint(again) != fmt.Sprint(want1) && !(len(again) == 0 && len(want1) == 0) {
 							return fmt.Sprintf("%s: the list of (%q,%q), still in use after only its ITERATOR was handed to the lookup (%q,%q,except %v), now yields %v, want %v", where, l1.name, l1.term, l2.name, l2.term, except, again, want1)
 						}
@@ -178,7 +192,7 @@ func init() {
 	run.Register(&run.Def{
 		ID:          "C12",
 		Level:       "exploration",
-		Rule:        "bounded-exhaustive: every batch of 1..3 documents where each document is an ordinary text document or a synonym document for thesaurus s1/s2 with one of 7 entry shapes (a->[x]; a->[x,y]; b->[y]; two entries in both enumeration orders; reversed synonym list; duplicate synonym), at least one synonym document; both build tags; in-memory and persisted+re-opened. Oracle: thesaurus keys ascending == defined terms, Contains agrees, and for every (thesaurus in {s1,s2,absent,ordinary field,_id}, term in {a,b,absent,empty}, EVERY exclusion bitmap) the (synonym, doc) pairs == reference, each once; plus every ordered pair of lookups over 3 thesaurus names x 3 terms where the second lookup is handed the first one's SynonymsList and SynonymsIterator as preallocation (after 0 / 1 / all Next calls), with and without exclusion, and the variant in which only the iterator is handed on while the first list stays in use and is read again afterwards; synonym fields have empty ordinary dictionaries and ordinary fields are unaffected (full postings/stored dump). Non-trivial = >= 2 synonym documents.",
+		Rule:        "bounded-exhaustive: every batch of 1..3 documents where each document is an ordinary text document or a synonym document for thesaurus s1/s2 with one of 8 entry shapes (a->[x]; a->[x,y]; b->[y]; two entries in both enumeration orders; reversed synonym list; duplicate synonym; three terms a, c, b), at least one synonym document; both build tags; in-memory and persisted+re-opened. Oracle: thesaurus keys ascending == defined terms, Contains agrees, and for every (thesaurus in {s1,s2,absent,ordinary field,_id}, term in {a,b,c,absent,empty}, EVERY exclusion bitmap) the (synonym, doc) pairs == reference, each once; plus every ordered pair of lookups over 3 thesaurus names x 4 terms where the second lookup is handed the first one's SynonymsList and SynonymsIterator as preallocation (after 0 / 1 / all Next calls), with and without exclusion on either lookup, and the variant in which only the iterator is handed on while the first list stays in use and is read again afterwards; synonym fields have empty ordinary dictionaries and ordinary fields are unaffected (full postings/stored dump). Non-trivial = >= 2 synonym documents.",
 		Assumptions: batchAssumptions,
 		Bounds:      map[string]string{"quick": "N<=3 (15 document kinds), all exclusion bitmaps", "thorough": "N<=3 plus N=4 over a 5-kind menu"},
 		Flavours:    plainAndVec,
